@@ -25,6 +25,7 @@ from harness import core
 DIR_HANDLERS = "[url.HTMLURLHandler, dir.DirHandler, file.FileHandler]"
 PROTOS = ["G", "GP+", "GP$", "H", "GEM", "SP", "WAP"]
 DANGLING_TARGET = "/nonexistent-verif-target"
+FILTER_EDGE = ["docs\\readme.txt", "trailing.", "odd'name", "sp ace.txt", "semi;colon.txt"]
 
 
 class HangForever(BaseException):
@@ -123,6 +124,10 @@ def probe_names(patterns: dict):
             for q, ch in enumerate(base):
                 if ch == "." and (q + 1 + off) not in a["any"]:
                     add(pre + base[:q] + ("x" if q == 0 and not pre else "-") + base[q + 1:], core_=True)
+    # names at the edge of the selector security filter that the filter ACCEPTS (visible, listable, retrievable):
+    # one backslash, a trailing dot, a quote, a space, a single dot before a backslash-free odd character
+    for name in FILTER_EDGE:
+        add(name, core_=True)
     return sorted((n, k, c) for (n, k), c in out.items())
 
 
@@ -403,6 +408,24 @@ class DirWorld:
                  "fired": list(self.fired), "cause": cause, "culprit_label": kid_label(case, culprit) if culprit else ""}
         return events, extra
 
+    def probe_omitted(self, proto, items):
+        """C12: every child WITHOUT an injected fault or special kind whose selector is not in the lexed listing is
+        requested by its exact selector through the same protocol form (same World).  Whether an omission matters
+        is decided by TLC (TraceC12); this only observes: served | refused | none."""
+        listed = {x["sel"] for x in items}
+        events, extras = [], []
+        for k in self.case["kids"]:
+            sel = self.case["sb"] + "/" + k["name"]
+            if sel in listed or k["kind"] not in ("file", "dir") or k["fault"] != "none":
+                continue
+            data, tls = request_bytes(proto, sel, self.waptop)
+            self.active = False
+            r = self.w.request(data, tls=tls)
+            got = "none" if r.escaped is not None or not r.out else ("refused" if is_refusal(proto, r.out) else "served")
+            events.append({"ev": "fetch", "name": k["name"], "got": got})
+            extras.append({"fetch": k["name"], "raw": r.out[:160].decode("latin-1"), "log": r.log[-2:]})
+        return events, extras
+
     def fetch(self, name):
         """Exact-selector request for one child (Gopher): what came back, abstractly."""
         k = next(x for x in self.case["kids"] if x["name"] == name)
@@ -578,6 +601,24 @@ def lex(proto, out: bytes, footers=(), waptop="/wap"):
                 href = href[len(waptop):]
             items.append({"sel": _unq(href) if href.startswith("/") else href, "title": html.unescape(m.group(2))})
         return "ok", items
+    raise core.MachineryError("unknown protocol form %r" % proto)
+
+
+def is_refusal(proto, out: bytes) -> bool:
+    """Is this reply the protocol's error reply (filenotfound() of the protocol class)?"""
+    text = out.decode("utf-8", "surrogateescape")
+    if proto == "G":
+        return text.startswith("3") and "\terror.host\t1" in text
+    if proto in ("GP+", "GP$"):
+        return text.startswith("--")
+    if proto == "H":
+        return text.startswith("HTTP/1.0 404")
+    if proto == "GEM":
+        return not text.startswith("20 ")
+    if proto == "SP":
+        return not text.startswith("2 ")
+    if proto == "WAP":
+        return text.startswith("HTTP/1.0 200 Not Found") or not text.startswith("HTTP/1.0 200")
     raise core.MachineryError("unknown protocol form %r" % proto)
 
 
